@@ -58,7 +58,9 @@ def run_tlc_once(module, cfg_text, wd, workers=16, extra_modules=(), env=None, s
         fh.write(cfg_text)
     meta = os.path.join(wd, "meta")
     shutil.rmtree(meta, ignore_errors=True)
-    cmd = ["java", "-Xss256m", "-XX:+UseParallelGC", "-Xmx" + heap]      # deep TLA+ recursion (folds over files) needs stack; -Xss must be on the command line
+    jtmp = os.path.join(wd, "jtmp")          # TLC leaves an empty tlc-* directory per run in java.io.tmpdir: keep them out of /tmp
+    os.makedirs(jtmp, exist_ok=True)
+    cmd = ["java", "-Xss256m", "-XX:+UseParallelGC", "-Xmx" + heap, "-Djava.io.tmpdir=" + jtmp]      # deep TLA+ recursion (folds over files) needs stack; -Xss must be on the command line
     for o in (javaopts or []):
         cmd.append(o)
     cmd += ["-cp", JAR, "tlc2.TLC", "-workers", str(workers), "-metadir", meta,
